@@ -65,7 +65,7 @@ theorem sorted_insert (x : M) (mp : Map) (h : Sorted mp) : Sorted (insert x mp) 
         · omega
         · exact hp.1 k hk'
 
-theorem sorted_step (mp : Map) (op : Op) (h : Sorted mp) : Sorted (step mp op) := by
+theorem sorted_step (t : Table) (op : Op) (h : Sorted t.map) : Sorted (step t op).map := by
   cases op with
   | add x =>
     simp only [step]
@@ -75,10 +75,10 @@ theorem sorted_step (mp : Map) (op : Op) (h : Sorted mp) : Sorted (step mp op) :
   | remove s => exact List.Pairwise.filter _ h
   | clear => exact List.Pairwise.nil
 
-theorem sorted_foldl (ops : List Op) (mp : Map) (h : Sorted mp) : Sorted (ops.foldl step mp) := by
-  induction ops generalizing mp with
+theorem sorted_foldl (ops : List Op) (t : Table) (h : Sorted t.map) : Sorted (ops.foldl step t).map := by
+  induction ops generalizing t with
   | nil => simpa
-  | cons op ops ih => simp only [List.foldl_cons]; exact ih _ (sorted_step mp op h)
+  | cons op ops ih => simp only [List.foldl_cons]; exact ih _ (sorted_step t op h)
 
 /-! ### The stronger invariant under non-empty ranges -/
 
@@ -327,18 +327,18 @@ theorem add_spec (mp : Map) (x : M) (hx : x.s < x.e) (h : WF mp) :
     · exact Or.inl h1
     · right; exact List.mem_filter.mpr ⟨h1, by rw [hrem n h1, h2]; rfl⟩
 
-theorem addSafe_of_ok (mp : Map) (x : M) (hx : x.s < x.e) : addSafe mp x = true := by
-  have := removalStart_le mp x.s
-  simp only [addSafe, decide_eq_true_eq]; omega
+theorem addSafe_of_ok (t : Table) (x : M) (hx : x.s < x.e) : addSafe t x = true := by
+  have := removalStart_le t.map x.s
+  simp only [addSafe, Bool.or_eq_true, decide_eq_true_eq]; right; omega
 
 /-- one step: invariant kept, contents = (the added mapping) ∪ (the survivors) -/
-theorem step_spec (mp : Map) (op : Op) (hw : WF mp) (hok : OpOk op) :
-    WF (step mp op) ∧ ∀ n, n ∈ step mp op ↔ op = Op.add n ∨ (n ∈ mp ∧ killedBy n op = false) := by
+theorem step_spec (t : Table) (op : Op) (hw : WF t.map) (hok : OpOk op) :
+    WF (step t op).map ∧ ∀ n, n ∈ (step t op).map ↔ op = Op.add n ∨ (n ∈ t.map ∧ killedBy n op = false) := by
   cases op with
   | add x =>
     have hx : x.s < x.e := hok
-    obtain ⟨h1, h2⟩ := add_spec mp x hx hw
-    simp only [step, addSafe_of_ok mp x hx, if_true]
+    obtain ⟨h1, h2⟩ := add_spec t.map x hx hw
+    simp only [step, addSafe_of_ok t x hx, if_true]
     refine ⟨h1, fun n => ?_⟩
     rw [h2 n]
     simp only [killedBy, Op.add.injEq]
@@ -354,7 +354,7 @@ theorem step_spec (mp : Map) (op : Op) (hw : WF mp) (hok : OpOk op) :
     simp [step, removeKey, killedBy, List.mem_filter]
   | clear =>
     refine ⟨WF_nil, fun n => ?_⟩
-    simp [step, killedBy]
+    simp [step, killedBy, Table.empty]
 
 /-! ### Declarative liveness -/
 
@@ -367,14 +367,14 @@ theorem liveAfter_iff (m : M) (os : List Op) :
   simp [liveAfter]
 
 /-- table contents after running `ops` from `mp0` = survivors of `mp0` ∪ live mappings of `ops` -/
-theorem foldl_step_spec (ops : List Op) (mp0 : Map) (hw : WF mp0) (hok : ∀ op ∈ ops, OpOk op) :
-    WF (ops.foldl step mp0) ∧
-    ∀ m, m ∈ ops.foldl step mp0 ↔ (m ∈ mp0 ∧ liveAfter m ops = true) ∨ m ∈ liveSpec ops := by
-  induction ops generalizing mp0 with
+theorem foldl_step_spec (ops : List Op) (t0 : Table) (hw : WF t0.map) (hok : ∀ op ∈ ops, OpOk op) :
+    WF (ops.foldl step t0).map ∧
+    ∀ m, m ∈ (ops.foldl step t0).map ↔ (m ∈ t0.map ∧ liveAfter m ops = true) ∨ m ∈ liveSpec ops := by
+  induction ops generalizing t0 with
   | nil => exact ⟨hw, fun m => by simp [liveAfter, liveSpec]⟩
   | cons op ops ih =>
-    obtain ⟨hw1, hm1⟩ := step_spec mp0 op hw (hok op List.mem_cons_self)
-    obtain ⟨hw2, hm2⟩ := ih (step mp0 op) hw1 (fun o ho => hok o (List.mem_cons_of_mem _ ho))
+    obtain ⟨hw1, hm1⟩ := step_spec t0 op hw (hok op List.mem_cons_self)
+    obtain ⟨hw2, hm2⟩ := ih (step t0 op) hw1 (fun o ho => hok o (List.mem_cons_of_mem _ ho))
     refine ⟨by simpa using hw2, fun m => ?_⟩
     simp only [List.foldl_cons]
     rw [hm2 m, hm1 m, liveAfter_cons]
@@ -425,9 +425,9 @@ theorem foldl_step_spec (ops : List Op) (mp0 : Map) (hw : WF mp0) (hok : ∀ op 
         · exact Or.inr h
 
 theorem run_spec (ops : List Op) (hok : ∀ op ∈ ops, OpOk op) :
-    WF (run ops) ∧ ∀ m, m ∈ run ops ↔ m ∈ liveSpec ops := by
-  obtain ⟨h1, h2⟩ := foldl_step_spec ops [] WF_nil hok
-  exact ⟨h1, fun m => by rw [run, h2 m]; simp⟩
+    WF (run ops).map ∧ ∀ m, m ∈ (run ops).map ↔ m ∈ liveSpec ops := by
+  obtain ⟨h1, h2⟩ := foldl_step_spec ops Table.empty WF_nil hok
+  exact ⟨h1, fun m => by rw [run, h2 m]; simp [Table.empty]⟩
 
 /-- `liveSpec` in words: added at some position, nothing later kills it -/
 theorem mem_liveSpec_iff (ops : List Op) (m : M) :
@@ -628,7 +628,7 @@ theorem resolveSpec_mem (ops : List Op) (a : Nat) (m : M) (h : resolveSpec ops a
 
 /-- concrete lookup = declarative resolution, for every history of non-empty ranges and every address -/
 theorem lookup_run (ops : List Op) (hok : ∀ op ∈ ops, OpOk op) (a : Nat) :
-    lookupImpl (run ops) a = resolveSpec ops a := by
+    lookupImpl (run ops).map a = resolveSpec ops a := by
   obtain ⟨hw, hm⟩ := run_spec ops hok
   cases hr : resolveSpec ops a with
   | none =>
@@ -654,7 +654,7 @@ theorem convert_of_lookup (mp : Map) (a : Nat) (m : M) (hl : lookupImpl mp a = s
   simp only [convertAddress, hl, hnot, if_false, Nat.mod_eq_of_lt hlt, hfit, if_true, relSpec]
 
 theorem convert_run (ops : List Op) (hok : ∀ op ∈ ops, OpOk op) (hfit : ∀ op ∈ ops, Fits32 op) (a : Nat) :
-    convertAddress (run ops) a =
+    convertAddress (run ops).map a =
       match resolveSpec ops a with
       | none => Conv.none
       | some m => Conv.ok (relSpec m a) m.v := by
